@@ -38,6 +38,7 @@ type attr struct{ id, addr, caddr int }
 type world struct {
 	ev   *evWorld  // event / refresh / propagation tier (events.go, e2e.go)
 	deb  *debWorld // refresh-debouncer unit tier (debounce.go)
+	evq  *evqWorld // event-debouncer unit tier (evqueue.go)
 	ring *gocql.VerifRing
 	objs map[int]*gocql.HostInfo
 	num  map[*gocql.HostInfo]int
@@ -769,6 +770,7 @@ func main() {
 	}
 	runEvents(r, out, tier)    // events.go: logical tier (real handlers / refreshRing on a dial-free Session)
 	runDebouncer(r, out, tier) // debounce.go: the real refreshDebouncer with requests arriving during a refresh
+	runEvQueue(r, out, tier)   // evqueue.go: the real eventDebouncer with events arriving while handler goroutines are pending
 	runE2E(r, out, tier)       // e2e.go: real Sessions with control connection on scripted in-memory clusters
 	out.Close(nil)
 }
